@@ -187,3 +187,9 @@ Proof.
   rewrite skipn_firstn_comm. replace (n - a + (m - n) - (n - a))%nat with (m - n)%nat by lia.
   rewrite skipn_skipn'. replace (n - a + a)%nat with n by lia. reflexivity.
 Qed.
+
+Lemma firstn_In' {A} n (l : list A) x : In x (firstn n l) -> In x l.
+Proof.
+  revert l; induction n as [|n IH]; intros l H; [cbn in H; contradiction|].
+  destruct l as [|a l]; [cbn in H; contradiction|]. cbn in H. destruct H as [->|H]; [left; reflexivity|right; apply IH; assumption].
+Qed.
